@@ -1,5 +1,118 @@
 import GT.Base.JsonQ
-open Lean GT.J
+import GT.Base.QSqrt
+import GT.Model.ObjState
+import GT.Driver.C03
+import GT.Driver.C04
+open Lean GT.J GT GT.Act
 namespace GT.Driver.C11
-def ops : List (String × Handler) := []
+open GT.Driver.C04 (ndf ndOf ofND natsf)
+open GT.Driver.C03 (kindOf ofObj ofOpt)
+
+/-- exact rational root where there is one; `-1` marks an irrational root (detected afterwards:
+every value the model takes a root of is recomputed by `rootsOk`) -/
+def rq (x : ℚ) : ℚ := if isSq x then rsqrt x else -1
+
+def objsOf (kind : Kind) (j : Json) : R (List (Obj ℚ)) := do
+  let a ← arr j
+  let l ← a.mapM fun o => do
+    let p ← ndf o "proj"
+    return Obj.construct rq kind p
+  return l.toList
+
+def opOf (kind : Kind) (j : Json) : R (ObjOp ℚ) := do
+  match (← strf j "op") with
+  | "copy" => return .copy
+  | "astype" => return .astype
+  | "flatten" => return .flatten
+  | "apply" => return .apply (← ndf j "A")
+  | "reshape" => return .reshape (← natsf j "s")
+  | "index" => return .index (← natf j "k")
+  | "setitem" => return .setItem (← natf j "k") (← ndf j "v")
+  | "stack" => return .stack (← objsOf kind (← field j "others"))
+  | "combine" => return .combine (← objsOf kind (← field j "others"))
+  | _ => throw "unknown op"
+
+def queryOf (s : String) : R Query := match s with
+  | "coords" => pure .coords
+  | "hyperboloid" => pure .hyperboloidCoords
+  | "distance" => pure .distance
+  | "origin_to" => pure .originTo
+  | "normalized" => pure .tangentNormalized
+  | "tangent_origin_to" => pure .tangentOriginTo
+  | "circle_parameters" => pure .circleParameters
+  | "fixed_points" => pure .fixedPoints
+  | _ => throw "unknown query"
+
+/-- Minkowski square norm of a row -/
+def mnorm (row : List ℚ) : ℚ :=
+  ((row.zipIdx.map fun (xi : ℚ × Nat) => if xi.2 = 0 then -(xi.1 * xi.1) else xi.1 * xi.1).sum : ℚ)
+
+def isNormalizedQ : Query → Bool
+  | .tangentNormalized => true
+  | _ => false
+
+/-- every entry produced with an irrational root is tainted by the marker `-1`; instead of
+tracking it we re-derive: a segment's ideal endpoints must be null vectors -/
+def segmentAuxOk (X : Obj ℚ) : Bool :=
+  match X.kind, X.aux with
+  | .segment, some a =>
+    let n := a.shape.getLastD 0
+    let rows := sz (a.shape.take (a.shape.length - 1))
+    (List.range rows).all fun k =>
+      let row := (List.range n).map fun c => a.data.getD (k * n + c) 0
+      mnorm row == 0
+  | _, _ => true
+
+/-- run a history (operations and queries interleaved) and report the object after every step -/
+def opRun (j : Json) : R Json := do
+  let kind ← kindOf (← strf j "kind")
+  let p ← ndf j "proj"
+  let steps ← arr (← field j "ops")
+  let mut X : Obj ℚ := Obj.construct rq kind p
+  if !segmentAuxOk X then throw "irrational-root"
+  let mut out : Array Json := #[ofObj X]
+  for s in steps do
+    match (← strf s "op") with
+    | "q" =>
+      let q ← queryOf (← strf s "name")
+      -- queries that normalise need exact roots of |<x,x>| for every row they touch
+      let arrs : List (ND ℚ) := match q with
+        | .hyperboloidCoords | .distance | .originTo => [X.proj]
+        | .tangentNormalized | .tangentOriginTo => X.aux.toList
+        | _ => []
+      for a in arrs do
+        let n := a.shape.getLastD 0
+        let rows := sz (a.shape.take (a.shape.length - 1))
+        for k in List.range rows do
+          let row := (List.range n).map fun c => a.data.getD (k * n + c) 0
+          let nn := mnorm row
+          if !(isNormalizedQ q) || (k % 2 == 1) then
+            if !isSq |nn| then throw "irrational-root"
+      X := X.afterQuery rq q
+      out := out.push (ofObj X)
+    | _ =>
+      let op ← opOf kind s
+      match X.step rq op with
+      | .error e => throw e
+      | .ok Y =>
+        if !segmentAuxOk Y then throw "irrational-root"
+        X := Y
+        out := out.push (ofObj X)
+  return .arr out
+
+/-- `Cls(proj_data).aux_data` -/
+def opAux (j : Json) : R Json := do
+  let kind ← kindOf (← strf j "kind")
+  let X : Obj ℚ := Obj.construct rq kind (← ndf j "proj")
+  if !segmentAuxOk X then throw "irrational-root"
+  return ofOpt X.aux
+
+/-- the literal numpy form of a polygon's edges -/
+def opPolyLit (j : Json) : R Json := do
+  match computeAuxPolygonLit (← ndf j "proj") with
+  | .ok a => return ofND a
+  | .error e => throw e
+
+def ops : List (String × Handler) :=
+  [("c11.run", opRun), ("c11.aux", opAux), ("c11.polygon_edges_literal", opPolyLit)]
 end GT.Driver.C11
